@@ -268,6 +268,18 @@ def check_history(ctx: Ctx, hist, steps, origin):
                 # the single-ref interfaces are right, only the bulk ones are wrong, and another id's record names the same artifact
                 kind = "bulk-existence-shared-artifact:" + kind
                 what = f"(records of dataset(s) {sharing} name the same artifact) " + what
+        if d is not None and kind.startswith("bystander-changed:") and i > 0 and \
+                set(kind.split(":", 1)[1].split("+")) <= {"many", "many_fast", "stored_many"}:
+            # only the BULK reports about d changed: if they were wrong before the operation because another id's record named
+            # the same artifact (the known bulk-existence defect) and the single-ref interfaces were right and did not change,
+            # the "change" is that defect going away, not the operation touching a bystander
+            o = steps[i - 1]["obs"]
+            mine = {(r[1], r[2]) for r in o["raw_recs"] if r[0] == d}
+            sharing = sorted({r[0] for r in o["raw_recs"] if r[0] != d and (r[1], r[2]) in mine})
+            if sharing and o["exists"][d][:3] == [int(d in {x[0] for x in o["raw_ds"]}), 1, 1] and o["stored"][d] == 1 \
+                    and steps[i]["obs"]["exists"][d] == o["exists"][d] and steps[i]["obs"]["stored"][d] == 1:
+                kind = "bulk-existence-shared-artifact:" + kind
+                what = f"(before the operation records of dataset(s) {sharing} named the same artifact and the bulk reports were wrong) " + what
         if d is not None and d in victims:
             kind = "stale-trash-row-victim:" + kind
             what = (f"dataset {d} had a stale row in dataset_location_trash while it was stored again and an emptyTrash "
